@@ -2,7 +2,12 @@
    followed by Print Assumptions.  [trace_g M ops] / [final_g M ops] are the event trace and
    the final state of the model with id wrap at M; [trace], [final], [run] are the instances
    at MaxReqId = 0x7FFFFFF0.  [noclash tr] is the freshness guard "no request was registered
-   under an id that was still pending" (C01_clash_needs_wrap says when it can fail). *)
+   under an id that was still pending" (C01_clash_needs_wrap says when it can fail).
+   Histories contain RESTARTS of the requesting actor (op [Crash]: a handler panics, the
+   supervisor restarts it, the producer builds a fresh Service): every theorem below that
+   quantifies over [ops] covers them.  Request ids in events and in the pending table are keys
+   [key M incarnation id] = incarnation * (M+1) + id; a response carries a bare id and is
+   processed by the live incarnation (C01_resp_live). *)
 From Cell2V Require Import Common.Tac Common.ListX Common.AList
   C01.Model C01.Spec C01.Corr C01.Proofs.
 
@@ -82,7 +87,7 @@ Print Assumptions C01_decode_exact.
    what the callback receives - the message itself (a typed nil pointer arrives as the zero
    message), nil for nil, and with an error code the error text alone *)
 Theorem C01_value_roundtrip : forall code info m,
-  cls_of (KAns code info m) =
+  cls_of_ans (KAns code info m) =
   if code =? 0
   then match m with
        | MNil => RNil
@@ -98,17 +103,53 @@ Print Assumptions C01_value_roundtrip.
    response with an empty body, unknown type with any body, body without a type, error code
    with any type / body / message *)
 Theorem C01_value_boundaries :
-  cls_of (KAns 0 0 (MHello 0 0)) = RReply (VHello 0 0) /\
-  cls_of (KAns 0 0 MTypedNil) = RReply (VHello 0 0) /\
-  cls_of (KAns 0 0 MEmpty) = RReply VEmpty /\
-  cls_of (KAns 0 0 MNil) = RNil /\
-  (forall e, cls_of (KRaw (Wire 0 e TyHello (BFields 0 0))) = RReply (VHello 0 0)) /\
-  (forall e b, cls_of (KRaw (Wire 0 e TyUnknown b)) = RBad false) /\
-  (forall e b, cls_of (KRaw (Wire 0 e TyNone b)) = RNil) /\
-  (forall c e t b, c <> 0 -> cls_of (KRaw (Wire c e t b)) = RErr e) /\
-  (forall c e m, c <> 0 -> cls_of (KAns c e m) = RErr e).
+  cls_of_ans (KAns 0 0 (MHello 0 0)) = RReply (VHello 0 0) /\
+  cls_of_ans (KAns 0 0 MTypedNil) = RReply (VHello 0 0) /\
+  cls_of_ans (KAns 0 0 MEmpty) = RReply VEmpty /\
+  cls_of_ans (KAns 0 0 MNil) = RNil /\
+  (forall e, cls_of_ans (KRaw (Wire 0 e TyHello (BFields 0 0))) = RReply (VHello 0 0)) /\
+  (forall e b, cls_of_ans (KRaw (Wire 0 e TyUnknown b)) = RBad false) /\
+  (forall e b, cls_of_ans (KRaw (Wire 0 e TyNone b)) = RNil) /\
+  (forall c e t b, c <> 0 -> cls_of_ans (KRaw (Wire c e t b)) = RErr e) /\
+  (forall c e m, c <> 0 -> cls_of_ans (KAns c e m) = RErr e).
 Proof. exact value_boundaries. Qed.
 Print Assumptions C01_value_boundaries.
+
+(* THAT VERY REQUEST.  A response's ghost is the tag of the request the peer is answering (it
+   hands that request object to Service.Response, which copies the id from it).  If the ghosts
+   of a history are truthful and no request id is used for two requests, a callback completed
+   with a reply / remote error was completed by the response that answers ITS OWN request -
+   for every model history under the guard, and for every accepted (implementation) trace ... *)
+Theorem C01_reply_answers_own_fresh : forall M ops,
+  1 <= M -> noclash (trace_g M ops) -> ghosts_truthful M (trace_g M ops) -> fresh_ids M (trace_g M ops) ->
+  answers_own (trace_g M ops).
+Proof. exact model_own. Qed.
+Print Assumptions C01_reply_answers_own_fresh.
+
+Theorem C01_acceptor_answers_own : forall M tr,
+  accepts tr = true -> ghosts_truthful M tr -> fresh_ids M tr -> answers_own tr.
+Proof. exact accepts_own. Qed.
+Print Assumptions C01_acceptor_answers_own.
+
+(* ... and ids ARE never used twice in a history without restart, without the allocator set-up
+   op and with at most M requests (no wrap): there the clause holds outright.  With a restart
+   it does not: C01_restart_reuses_ids (open finding F24). *)
+Theorem C01_fresh_ids : forall M, 1 <= M -> forall ops,
+  Forall plain ops -> n_issue (trace_g M ops) <= M -> fresh_ids M (trace_g M ops).
+Proof. exact fresh_plain. Qed.
+Print Assumptions C01_fresh_ids.
+
+Theorem C01_reply_answers_own_request : forall M ops,
+  1 <= M -> Forall plain ops -> n_issue (trace_g M ops) <= M ->
+  noclash (trace_g M ops) -> ghosts_truthful M (trace_g M ops) ->
+  answers_own (trace_g M ops).
+Proof. exact model_own_plain. Qed.
+Print Assumptions C01_reply_answers_own_request.
+
+(* the executable form of the clause, as run by the monitor on each operation's events *)
+Theorem C01_own_check_sound : forall tr, own_b tr = true -> answers_own tr.
+Proof. exact own_b_sound. Qed.
+Print Assumptions C01_own_check_sound.
 
 Theorem C01_issue_unique : forall M ops,
   1 <= M -> noclash (trace_g M ops) -> issue_unique (trace_g M ops).
@@ -122,22 +163,23 @@ Proof. exact model_sent. Qed.
 Print Assumptions C01_sent_after_issue.
 
 (* a response for a pending id completes it at once.  State level, ANY state: processing
-   [Resp id k] while e is pending under id emits exactly the callback of e's request with the
+   [Resp id k] while e is pending under id IN THE LIVE INCARNATION (key) emits exactly the callback of e's request with the
    class of k, followed by whatever that callback's own programme does (r), and deletes the
    entry; under the guard every other entry is kept; with an empty programme nothing else
    changes at all. *)
 Theorem C01_resp_completes : forall M s id k e,
-  aget id (pending s) = Some e ->
+  let key := rkey M (cur s) id in
+  aget key (pending s) = Some e ->
   let r := exec_prog M (e_prog e) s in
   step M s (Resp id k) =
-    (set_pending (fst r) (adel id (pending (fst r))),
-     EResp id k :: ECb (e_tag e) (cls_of k) :: snd r) /\
-  aget id (pending (fst (step M s (Resp id k)))) = None /\
-  (noclash (snd r) -> forall id' e', id' <> id -> aget id' (pending s) = Some e' ->
+    (set_pending (fst r) (adel key (pending (fst r))),
+     EResp key k :: ECb (e_tag e) (cls_of k) :: snd r) /\
+  aget key (pending (fst (step M s (Resp id k)))) = None /\
+  (noclash (snd r) -> forall id' e', id' <> key -> aget id' (pending s) = Some e' ->
                       aget id' (pending (fst (step M s (Resp id k)))) = Some e') /\
   (e_prog e = [] ->
    step M s (Resp id k) =
-     (set_pending s (adel id (pending s)), [EResp id k; ECb (e_tag e) (cls_of k)])).
+     (set_pending s (adel key (pending s)), [EResp key k; ECb (e_tag e) (cls_of k)])).
 Proof. exact resp_step. Qed.
 Print Assumptions C01_resp_completes.
 
@@ -148,10 +190,12 @@ Theorem C01_resp_completes_trace : forall M ops,
 Proof. exact model_resp_completes. Qed.
 Print Assumptions C01_resp_completes_trace.
 
-(* discard: a response for an id that is not pending - late, duplicate, unknown - leaves the
-   state unchanged and emits only Dropped (any state) ... *)
+(* discard: a response for an id that is not pending in the live incarnation - late, duplicate,
+   unknown, or meant for a request of an incarnation that was replaced - leaves the state
+   unchanged and emits only Dropped (any state) ... *)
 Theorem C01_discard : forall M s id k,
-  aget id (pending s) = None -> step M s (Resp id k) = (s, [EResp id k; EDrop id]).
+  aget (rkey M (cur s) id) (pending s) = None ->
+  step M s (Resp id k) = (s, [EResp (rkey M (cur s) id) k; EDrop (rkey M (cur s) id)]).
 Proof. exact discard_step. Qed.
 Print Assumptions C01_discard.
 
@@ -192,7 +236,9 @@ Theorem C01_suppressed_frame : forall M s,
 Proof. exact suppressed_step. Qed.
 Print Assumptions C01_suppressed_frame.
 
-(* every request whose deadline has passed at a final Tick has exactly one callback ... *)
+(* EXACTLY ONCE.  Every request whose deadline has passed at a final Tick has exactly one
+   callback - whichever incarnation issued it, however many restarts lie between (a restarted
+   actor's old timer keeps scanning the old table: C01_restart_frame, C01_timer_armed) ... *)
 Theorem C01_drain_complete : forall M, 1 <= M -> forall h hint t id n,
   noclash (trace_g M (h ++ [Tick hint])) ->
   In (EIssue t id n) (trace_g M (h ++ [Tick hint])) ->
@@ -213,33 +259,69 @@ Theorem C01_drain_quiescent : forall M, 1 <= M -> forall h hint,
 Proof. exact drain_quiescent. Qed.
 Print Assumptions C01_drain_quiescent.
 
-(* timer: armed whenever anything is pending (every reachable state, clash or not); only a
-   Tick that finds the table empty switches it off; an armed Tick leaves nothing expired *)
-Theorem C01_timer_armed : forall M, 1 <= M -> forall ops,
-  pending (final_g M ops) <> [] -> armed (final_g M ops) = true.
+(* timers, one per incarnation.  The timer of incarnation j is armed whenever one of ITS
+   requests is pending (every reachable state, clash or not, j alive or replaced long ago);
+   only its own scan, finding its own table empty, switches it off ([tick]: the scan of the
+   incarnation in focus); no other operation - a restart included - switches any timer off;
+   a scan leaves none of the incarnation's requests expired, and a Tick leaves nothing expired
+   in any table *)
+Theorem C01_timer_armed : forall M, 1 <= M -> forall ops j k e,
+  aget k (pending (final_g M ops)) = Some e -> inc_of M k = j ->
+  armed_of (final_g M ops) j = true.
 Proof. exact timer_armed. Qed.
 Print Assumptions C01_timer_armed.
 
 Theorem C01_timer_disarm : forall M s h,
-  armed s = true -> armed (fst (step M s (Tick h))) = false ->
-  pending s = [] /\ step M s (Tick h) = (set_armed s false, [ETick (clock s)]).
+  armed s = true -> armed (fst (tick M s h)) = false ->
+  block M (foc s) (pending s) = [] /\ tick M s h = (set_armed s false, [ETick (clock s)]).
 Proof. exact timer_disarm. Qed.
 Print Assumptions C01_timer_disarm.
 
-Theorem C01_timer_kept : forall M s o,
-  armed s = true -> (forall h, o <> Tick h) -> (forall h, o <> TickReal h) ->
-  armed (fst (step M s o)) = true.
+Theorem C01_timer_kept : forall M s o j,
+  armed_of s j = true -> (forall h, o <> Tick h) -> (forall h, o <> TickReal h) ->
+  armed_of (fst (step M s o)) j = true.
 Proof. exact step_keeps_armed. Qed.
 Print Assumptions C01_timer_kept.
 
-Theorem C01_scan_complete : forall M s h id e,
-  armed s = true -> aget id (pending (fst (step M s (Tick h)))) = Some e -> clock s <= e_dl e.
+Theorem C01_scan_incarnation : forall M s h id e,
+  1 <= M -> armed s = true -> aget id (pending (fst (tick M s h))) = Some e -> inc_of M id = foc s ->
+  clock s <= e_dl e.
+Proof. exact scan_incarnation. Qed.
+Print Assumptions C01_scan_incarnation.
+
+Theorem C01_scan_complete : forall M, 1 <= M -> forall h hint id e,
+  aget id (pending (final_g M (h ++ [Tick hint]))) = Some e -> clock (final_g M h) <= e_dl e.
 Proof. exact scan_complete. Qed.
 Print Assumptions C01_scan_complete.
 
+(* ---- restarts *)
+
+(* a restart touches nothing that exists: the pending table (of all incarnations), the clock,
+   the allocator and the timer of every earlier incarnation stay exactly as they are - in
+   particular the old incarnation's timer stays armed, so C01_drain_complete still reaches its
+   requests; the new live incarnation is a fresh Service (allocator 0, timer off) *)
+Theorem C01_restart_frame : forall M s,
+  foc s = cur s ->
+  let s' := fst (step M s Crash) in
+  snd (step M s Crash) = [ECrash] /\ pending s' = pending s /\ clock s' = clock s /\
+  cur s' = cur s + 1 /\ foc s' = cur s + 1 /\
+  (forall j, j <> cur s + 1 -> view s' j = view s j) /\
+  (aget (cur s + 1) (rest s) = None -> next s' = 0 /\ armed s' = false).
+Proof. exact crash_step. Qed.
+Print Assumptions C01_restart_frame.
+
+(* responses are processed by the live incarnation: in every history, the key a response
+   addresses is its bare id in the incarnation numbered by the restarts so far.  With
+   C01_matching / C01_discard_trace: after a restart a response can complete only a request of
+   the new incarnation; the requests of the replaced ones can only time out (C01_drain_complete) *)
+Theorem C01_resp_live : forall M ops,
+  1 <= M -> resp_live M (trace_g M ops) /\ n_crash (trace_g M ops) = cur (final_g M ops).
+Proof. exact model_resp_live. Qed.
+Print Assumptions C01_resp_live.
+
 (* id wrap: a registration overwrites a live entry (EClash id span) only if at least M ids
-   were allocated since, and including, that entry's own - for every history, also after
-   earlier clashes.  So the guard holds whenever fewer than MaxReqId requests are issued
+   were allocated BY THAT INCARNATION since, and including, that entry's own - for every
+   history, also after earlier clashes.  So the guard holds whenever fewer than MaxReqId requests are issued
    within the lifetime of any pending one. *)
 Theorem C01_clash_needs_wrap : forall M, 1 <= M -> forall ops id span,
   In (EClash id span) (trace_g M ops) -> M <= span.
@@ -256,9 +338,35 @@ Theorem C01_wrap_refuted :
 Proof. vm_compute. repeat split. repeat (first [left; reflexivity | right]). Qed.
 Print Assumptions C01_wrap_refuted.
 
-(* the executable monitor of Corr.v accepts every clash-free model run, so a monitor failure
-   on an implementation trace that the model matches cannot be a false alarm *)
-Theorem C01_monitor_sound : forall ops, noclash (trace ops) -> monitor (ops, run ops) = true.
+(* ACROSS A RESTART THE FRESHNESS OF IDS IS LOST - open finding F24, a defect of the code as it
+   is: the new incarnation's allocator starts at 0 again, so one allocation after the restart a
+   second request travels under request id 1 while the first is still outstanding - the peer
+   received (1, tag 0) and (1, tag 1).  The peer answers the FIRST one (ghost 0, truthful); the
+   response, processed by the live incarnation, completes the SECOND (tag 1): [answers_own] is
+   false, the monitor rejects the run; everything else about the trace is in order (it is
+   accepted, the guard holds) and the first request can only time out.  Within one incarnation
+   this needs M allocations (C01_clash_needs_wrap, C01_fresh_ids). *)
+Theorem C01_restart_reuses_ids :
+  let ops := [Do (AReq []); Crash; Do (AReq []); Resp 1 (K 0 (KAns 0 0 (MHello 7 0)));
+              Advance 30001; Tick []; Tick []] in
+  sent_of MaxReqId (trace ops) = [(1, 0); (1, 1)] /\
+  akeys (pending (final [Do (AReq []); Crash; Do (AReq [])])) = [1; key MaxReqId 1 1] /\
+  In (ECb 1 (RReply (VHello 7 0))) (trace ops) /\ In (ECb 0 RTimeout) (trace ops) /\
+  noclash_b (trace ops) = true /\ accepts (trace ops) = true /\ pending (final ops) = [] /\
+  own_b (trace ops) = false /\ monitor (ops, run ops) = false /\ agree (ops, run ops) = true.
+Proof. vm_compute. repeat split; repeat (first [left; reflexivity | right]). Qed.
+Print Assumptions C01_restart_reuses_ids.
+
+Theorem C01_restart_refutes_own :
+  ~ answers_own (trace [Do (AReq []); Crash; Do (AReq []); Resp 1 (K 0 (KAns 0 0 (MHello 7 0)))]).
+Proof. exact restart_refutes_own. Qed.
+Print Assumptions C01_restart_refutes_own.
+
+(* the executable monitor of Corr.v accepts every clash-free model run whose replies answer
+   their own requests, so a monitor failure on an implementation trace that the model matches
+   cannot be a false alarm *)
+Theorem C01_monitor_sound : forall ops,
+  noclash (trace ops) -> answers_own (trace ops) -> monitor (ops, run ops) = true.
 Proof. exact monitor_model. Qed.
 Print Assumptions C01_monitor_sound.
 
@@ -274,9 +382,9 @@ Print Assumptions C01_agree_model.
 Definition ex_ops : list op :=
   [SetNext 2147483631; Via 2;
    Do (AReq [AReq []; ANotify; ANoRoute [AUnser []]; ANotifyNR]); Do (AReq []); Do ANotify; DirectNotify 0;
-   Resp 2147483632 (KAns 0 0 (MHello 0 0)); Resp 2147483632 (KAns 0 0 MNil); Resp 9 (KAns 999 1 MNil);
-   Resp 1 (KRaw (Wire 0 0 TyUnknown (BFields 0 0)));
-   Advance 30000; Tick []; Advance 1; Tick [4]; Advance 30000; Tick []; Tick []].
+   Resp 2147483632 (K (-1) (KAns 0 0 (MHello 0 0))); Resp 2147483632 (K (-1) (KAns 0 0 MNil)); Resp 9 (K (-1) (KAns 999 1 MNil));
+   Resp 1 (K (-1) (KRaw (Wire 0 0 TyUnknown (BFields 0 0))));
+   Advance 30000; Tick []; Advance 1; Tick [[4]]; Advance 30000; Tick []; Tick []].
 
 (* the guard holds on it, it is accepted, it wraps, completes everything and drains *)
 Example C01_example_guard : noclash_b (trace ex_ops) = true.
@@ -289,11 +397,11 @@ Example C01_example_trace :
    EDo; EIssue 1 1 1000000; ESent 1 1;
    EDo; ESent 0 (-1);
    EIdle;
-   EResp 2147483632 (KAns 0 0 (MHello 0 0)); ECb 0 (RReply (VHello 0 0)); EIssue 2 2 1000000; ESent 2 2; ESent 0 (-1);
+   EResp 2147483632 (K (-1) (KAns 0 0 (MHello 0 0))); ECb 0 (RReply (VHello 0 0)); EIssue 2 2 1000000; ESent 2 2; ESent 0 (-1);
      ENoRoute 3; ECb 3 RNoService; EIssue 4 3 1000000;
-   EResp 2147483632 (KAns 0 0 MNil); EDrop 2147483632;
-   EResp 9 (KAns 999 1 MNil); EDrop 9;
-   EResp 1 (KRaw (Wire 0 0 TyUnknown (BFields 0 0))); ECb 1 (RBad false);
+   EResp 2147483632 (K (-1) (KAns 0 0 MNil)); EDrop 2147483632;
+   EResp 9 (K (-1) (KAns 999 1 MNil)); EDrop 9;
+   EResp 1 (K (-1) (KRaw (Wire 0 0 TyUnknown (BFields 0 0)))); ECb 1 (RBad false);
    EIdle; ETick 1030000;
    EIdle; ETick 1030001; ECb 4 RTimeout; ECb 2 RTimeout;
    EIdle; ETick 1060001; EIdle].
@@ -302,4 +410,32 @@ Proof. vm_compute. reflexivity. Qed.
 Example C01_example_final :
   pending (final ex_ops) = [] /\ armed (final ex_ops) = false /\
   monitor (ex_ops, run ex_ops) = true /\ agree (ex_ops, run ex_ops) = true.
+Proof. vm_compute. repeat split. Qed.
+
+(* a history with two restarts: the requests outstanding at a restart are completed exactly
+   once, by the replaced incarnation's own scan, with the timeout error; the response that
+   arrives after the restart is processed by the new incarnation (dropped when it has no such
+   request, else it completes ITS request); a retry issued from a timeout callback of a replaced
+   incarnation is registered by that incarnation and timed out by it in turn *)
+Definition ex_restart : list op :=
+  [Do (AReq [AReq []]); Do (AReq []); Crash; Resp 2 (K (-1) (KAns 0 0 (MHello 5 0))); Do (AReq []);
+   Resp 1 (K (-1) (KAns 0 0 (MHello 0 0))); Crash; Advance 30001; Tick []; Advance 30001; Tick []; Tick []].
+
+Example C01_example_restart :
+  noclash_b (trace ex_restart) = true /\
+  trace ex_restart =
+  [EDo; EIssue 0 1 1000000; ESent 1 0;
+   EDo; EIssue 1 2 1000000; ESent 2 1;
+   ECrash;
+   EResp 2147483635 (K (-1) (KAns 0 0 (MHello 5 0))); EDrop 2147483635;
+   EDo; EIssue 2 2147483634 1000000; ESent 2147483634 2;
+   EResp 2147483634 (K (-1) (KAns 0 0 (MHello 0 0))); ECb 2 (RReply (VHello 0 0));
+   ECrash;
+   EIdle;
+   ETick 1030001; ECb 0 RTimeout; EIssue 3 3 1030001; ESent 3 3; ECb 1 RTimeout; ETick 1030001; EIdle;
+   EIdle;
+   ETick 1060002; ECb 3 RTimeout; EIdle; EIdle;
+   ETick 1060002; EIdle; EIdle] /\
+  pending (final ex_restart) = [] /\ arms_of (final ex_restart) = [false; false; false] /\
+  monitor (ex_restart, run ex_restart) = true /\ agree (ex_restart, run ex_restart) = true.
 Proof. vm_compute. repeat split. Qed.
